@@ -842,17 +842,92 @@ func ruleC13(p *Prog, r *Result) {
 	pr.all("any other string is left unchanged", selectPaths(pr.paths, func(pa *Path) bool { return interp(pa) == -1 && isVar(pa) == -1 }), "returns obj", returnsExactly(objP, "the string itself"))
 	// interpolation: error discipline via cells
 	fn := p.Func("bkl.process2StringInterp")
+	// the replacement callback: the function value handed to ReplaceAllStringFunc — a function literal that shares
+	// an error variable with its parent, or a method bound to an object that carries the error in a field
 	var closure *ssa.Function
-	for _, an := range fn.AnonFuncs {
-		closure = an
+	slotKind, slotName := "", ""
+	for _, cs := range allCalls([]*ssa.Function{fn}) {
+		if cs.Name != "(*regexp.Regexp).ReplaceAllStringFunc" || len(cs.Instr.Common().Args) != 3 {
+			continue
+		}
+		mc, ok := cs.Instr.Common().Args[2].(*ssa.MakeClosure)
+		if !ok {
+			continue
+		}
+		cf, _ := mc.Fn.(*ssa.Function)
+		if cf == nil {
+			continue
+		}
+		if strings.Contains(cf.Synthetic, "bound method wrapper") {
+			for _, c2 := range allCalls([]*ssa.Function{cf}) {
+				if c2.Callee != nil && p.InRepo(c2.Callee) {
+					closure = c2.Callee
+				}
+			}
+			if closure != nil && closure.Signature.Recv() != nil {
+				rt := closure.Signature.Recv().Type()
+				if pt, isPtr := rt.(*types.Pointer); isPtr {
+					rt = pt.Elem()
+				}
+				if stt, isStruct := rt.Underlying().(*types.Struct); isStruct {
+					n := 0
+					for i := 0; i < stt.NumFields(); i++ {
+						if nnIsErrorType(stt.Field(i).Type()) {
+							slotKind, slotName = "field", stt.Field(i).Name()
+							n++
+						}
+					}
+					if n != 1 {
+						slotKind = ""
+					}
+				}
+			}
+		} else {
+			closure = cf
+			n := 0
+			for _, fv := range cf.FreeVars {
+				if pt, isPtr := fv.Type().(*types.Pointer); isPtr && nnIsErrorType(pt.Elem()) {
+					slotKind, slotName = "cell", fv.Name()
+					n++
+				}
+			}
+			if n != 1 {
+				slotKind = ""
+			}
+		}
 	}
-	if closure == nil {
-		r.Undecided("C13.error", "bkl.process2StringInterp / replacement callback", p.Pos(fn.Pos()), "callback not found")
+	if closure == nil || slotKind == "" {
+		r.Undecided("C13.error", "bkl.process2StringInterp / replacement callback", p.Pos(fn.Pos()), "callback not found (a function literal or bound method handed to ReplaceAllStringFunc, with exactly one shared error variable or field)")
 		return
+	}
+	isRecv := func(t *T) bool {
+		return t != nil && t.Op == "param" && len(closure.Params) > 0 && t.V == ssa.Value(closure.Params[0])
+	}
+	// the value an effect stores into the shared error, or nil
+	slotSet := func(e Effect) *T {
+		switch slotKind {
+		case "cell":
+			if e.Kind == "cellset" && e.Callee == slotName && len(e.Args) == 1 {
+				return e.Args[0]
+			}
+		case "field":
+			if e.Kind == "fieldset" && strings.HasSuffix(e.Callee, "."+slotName) && len(e.Args) == 2 && isRecv(e.Args[0]) {
+				return e.Args[1]
+			}
+		}
+		return nil
 	}
 	ci := newPSRule(p, r, "C13.error", p.FuncName(closure), PSOpts{NoInline: map[string]bool{"bkl.getWithVar": true, "bkl.process2": true, "bkl.process2String": true}})
 	nested := mOr(mCall("bkl.process2"), mCall("bkl.process2String")) // the evaluator applied to a looked-up string
-	cellEntry := func(t *T) bool { return t != nil && t.Op == "freeval" && t.Name == "err" }
+	cellEntry := func(t *T) bool {
+		if t == nil {
+			return false
+		}
+		if slotKind == "cell" {
+			return t.Op == "freeval" && t.Name == slotName
+		}
+		return t.Op == "field" && t.Name == slotName && len(t.Args) == 1 && isRecv(t.Args[0])
+	}
 	ci.all("a failed lookup or nested evaluation is recorded in the captured error", selectPaths(ci.paths, func(pa *Path) bool {
 		return guardPol(pa, "err", mCall("bkl.getWithVar"), nil) == 1 || guardPol(pa, "err", nested, nil) == 1
 	}), "err cell receives the error", func(pa *Path) (bool, string) {
@@ -860,7 +935,7 @@ func ruleC13(p *Prog, r *Result) {
 			return true, "" // an earlier reference's error is already recorded and is kept
 		}
 		for _, e := range pa.Effects {
-			if e.Kind == "cellset" && e.Callee == "err" && (mCall("bkl.getWithVar")(e.Args[0]) || nested(e.Args[0])) {
+			if v := slotSet(e); v != nil && (mCall("bkl.getWithVar")(v) || nested(v) || mResOf(1, mCall("bkl.getWithVar"))(v) || mResOf(1, nested)(v)) {
 				return true, ""
 			}
 		}
@@ -874,8 +949,8 @@ func ruleC13(p *Prog, r *Result) {
 		}
 		var last *T
 		for _, e := range pa.Effects {
-			if e.Kind == "cellset" && e.Callee == "err" {
-				last = e.Args[0]
+			if v := slotSet(e); v != nil {
+				last = v
 			}
 		}
 		if last == nil {
@@ -921,7 +996,13 @@ func ruleC13(p *Prog, r *Result) {
 		// success must be guarded by the error cell being nil
 		if res.IsNil() {
 			for _, g := range pa.Guards {
-				if (g.Kind == "kind" || g.Kind == "nil" || g.Kind == "err") && g.A.Op == "carried" && strings.Contains(g.A.Name, "err") {
+				if !(g.Kind == "kind" || g.Kind == "nil" || g.Kind == "err") || g.A == nil {
+					continue
+				}
+				if slotKind == "cell" && g.A.Op == "carried" && strings.Contains(g.A.Name, slotName) {
+					return true, ""
+				}
+				if slotKind == "field" && g.A.Op == "field" && g.A.Name == slotName && len(g.A.Args) == 1 && g.A.Args[0].Op == "fresh" {
 					return true, ""
 				}
 			}
